@@ -67,6 +67,8 @@ def _poly_eq(affine, expr, p) -> bool:
 
 
 def run(ck, m):
+    from rules.common import rule_memo_safety
+    rule_memo_safety(ck, m, "MEMO", "C01")          # first: a memoised helper also hides the code it wraps from the rules below
     tree = m.tree(CS)
     fold = Folder(tree)
     env = fold.env
@@ -311,14 +313,12 @@ def run(ck, m):
     from tiv.report import Scoped
     import rules.c03 as c03
     import rules.c04 as c04
-    sc3 = Scoped(ck, "R6", lambda c: "_render_image" in c or "Transmission" in c or "ControlData" in c, rids={"R3", "R6"})
+    sc3 = Scoped(ck, "R6", lambda c: "_render_image" in c or "Transmission" in c or "ControlData" in c, rids={"R3", "R4", "R6"})
     c03.run(sc3, m)
     sc4 = Scoped(ck, "R6", lambda c: c.endswith("::BaseImage") or "rendered_" in c, rids={"R3"})
     c04.run(sc4, m)
     ck.expect(sc3.kept >= 10 and sc4.kept >= 3, f"expected sibling obligations (C03.R3/R6: {sc3.kept}, C04.R3: {sc4.kept})")
 
-    from rules.common import rule_memo_safety
-    rule_memo_safety(ck, m, "MEMO", "C01")
 
 
 MUTANTS = [
